@@ -69,6 +69,26 @@ def compile_pass(P, R):
     return H
 
 
+def owned_strings(P, R, H, rule='C11.OWN.1'):
+    """The compiled rule table owns its texts: every string member of a rule entry is stored as a copy (xstrdup) of the
+    configuration value, never as the configuration node's own pointer - the node's text is freed and replaced on every
+    reload, while the table is rebuilt only when a hook reports a change."""
+    n = 0
+    for s in H.stores():
+        ev = s.ev
+        lhs = ev.get('lhs') or {}
+        if ev['k'] != 'store' or lhs.get('k') != 'mem' or lhs.get('rec') != RULE_REC or ev.get('op') != '=':
+            continue
+        t = (lhs.get('t') or '')
+        if not ('char' in t and '*' in t):
+            continue
+        rhs = ev.get('rhs') or {}
+        n += 1
+        R.ob(rule, const_of(rhs) == 0 or (rhs.get('k') == 'callref' and rhs.get('callee') in ('xstrdup', 'strdup', 'xstrndup')), s,
+             'rule member %s is stored as a copy of the configuration text (%s)' % (lhs.get('field'), sx(rhs)[:60]), key='owned:%s' % lhs.get('field'))
+    R.floor(rule, 4, 'string members of a compiled rule')
+
+
 def comparator(P, R):
     cmp = P.need_fn('conf_object_cmp')
     first = None
@@ -475,6 +495,8 @@ def run(P, R, tier):
     c13.prefix_offsets(P, Remap(R, {'C13.TAB.1': 'C11.TAB.3'}))
     # a rule's address is read with the digit values of the character table
     c13.hex_table(P, R, 'C11.TAB.4')
+    # a rule address without /n is a host address: the parser reports its full length
+    c13.prefix_reported(P, R, c13.scope(P), 'C11.TAB.8')
     # a host rule (/128, /32) keeps its full prefix length, and every bit of an odd prefix length is compared
     c13.full_range(P, R, c13.scope(P), 'C11.TAB.5', parts=('prefix', 'residue'))
     # a rule address written with "::" is expanded to the eight groups it stands for
@@ -486,6 +508,7 @@ def run(P, R, tier):
     R.floor('C11.TAB.5', 3)
     ok_recorded(P, R)
     H = compile_pass(P, R)
+    owned_strings(P, R, H)
     # every rule object of the section is compiled: a non-rule entry is skipped, it does not end the pass
     nn = rules.full_traversal(P, R, 'C11.MPT.3', H, lambda c: any(is_var(x) and x.get('t', '').startswith('struct set_node') for x in walk(c)) and const_of((rel(c, True) or [None, None, None])[2]) == 0,
                               'rule compilation over the section\'s entries')
